@@ -63,6 +63,11 @@ def obligations(tier):
                           timeout=600,
                           sample="write_item(data of %s, %s) + string table + EOFILE -> MIR_read_with_func: item, type, count and "
                                  "bytes equal" % (tn, sym)))
+    nloops = dict(LOOPS)
+    nloops.update({"h_strtoul#0": 6, "h_snprintf#0": 9, "h_snprintf#1": 7, "h_snprintf#2": 7, "harness#0": 6, "strlen#0": 8, "strcmp#0": 9, "strncmp#0": 8})
+    obs.append(Ob("name.temp_item", "C11/name.c", defs=DEFS, loops=nloops, unwind=3, object_bits=12, timeout=600,
+                  sample="read_name on a NAME token whose string is any <= 5 characters of [a-z0-9.] (reserved `.lc<n>` names included), then "
+                         "_MIR_get_temp_item_name on the module: the fresh name differs from the name read"))
     for two in (0, 1):
         obs.append(Ob("item.lref.%dlab" % (two + 1), "C11/item.c", defs=DEFS + ["H_LREF", "H_TWO=%d" % two], loops=iloops,
                       unwind=3, object_bits=12, timeout=600,
@@ -81,6 +86,7 @@ META = {
         "string numbers": "< 2^32 (write_str_tag asserts nb <= 4); resolution through tables of 7 strings",
         "registers": "function with 2 declared registers r1, r2; names not of the reserved form t<digits> "
                      "(process_reserved_name -> strtoul is libc)",
+        "name.temp_item": "strtoul modelled for unsigned decimal numerals (<= 5 digits, no sign/blank prefix), snprintf for \"%s%u\"; names <= 5 characters of [a-z0-9.]",
         "memory operand": "type symbolic over all 18 type tags, disp all int64, base/index in {absent,r1,r2}, scale 0..255, "
                           "alias/nonalias in {none,al,nal}; scale compared only when an index register is present "
                           "(the format does not carry the scale otherwise; reader yields 0)",
